@@ -1,6 +1,7 @@
 import Ufo2ftModel.Drv.Util
 import Ufo2ftModel.Spec.C14
 import Ufo2ftModel.Spec.C14Run
+import Ufo2ftModel.Spec.C14Special
 namespace Ufo2ft.Drv.C14
 open Lean Ufo2ft.Drv Ufo2ft.C14
 
@@ -8,6 +9,7 @@ def errS : Err → String
   | .valueError => "ValueError" | .keyError => "KeyError" | .missingComponent => "MissingComponentError"
   | .invalidFontData => "InvalidFontData" | .attributeError => "AttributeError"
   | .zeroDivision => "ZeroDivisionError" | .exception => "Exception" | .recursion => "RecursionError"
+  | .statistics => "StatisticsError"
 
 def asSeg (j : Json) : R (Option Seg) := do
   if j.isNull then return none
@@ -360,12 +362,122 @@ def prun (req : Json) : R Reply := do
            info := Json.mkObj [("steps", Json.arr hsteps), ("source", Json.bool (holdsSource separate src)),
                                ("view", Json.bool hview)] }
 
+/-! DottedCircleFilter / ExplodeColorLayerGlyphsFilter: the source font is part of the state -/
+
+def asFGlyph (j : Json) : R FGlyph := do
+  match ← asArr j with
+  | [n, g, u, bw] => return { name := ← asStr n, g := ← asGlyph g, unicodes := ← asList asNat u, bw := ← asOpt asRat bw }
+  | _ => throw "bad font glyph"
+
+def asCMap (j : Json) : R ColorMap := asList (asPair asStr asNat) j
+
+def asLGlyph (j : Json) : R LGlyph := do
+  return { g := ← asGlyph j, unicodes := ← asList asNat (← field j "u"), cmap := ← asOpt asCMap (← field j "m") }
+
+def asXSet (j : Json) : R XSet := asList (asPair asStr asLGlyph) j
+
+def cmapJ (m : ColorMap) : Json := listJ (pairJ Json.str natJ) m
+def lglyphJ (l : LGlyph) : Json :=
+  (glyphJ l.g).setObjVal! "u" (listJ natJ l.unicodes) |>.setObjVal! "m" (optJ cmapJ l.cmap)
+def xsetJ (x : XSet) : Json := listJ (pairJ Json.str lglyphJ) x
+
+def catsJ (c : Option (List (String × String))) : Json :=
+  optJ (fun l => listJ (pairJ Json.str Json.str) ((l.toArray.qsort (fun a b => a.1 < b.1)).toList)) c
+def gdefJ (g : Option (List (Option (List String)))) : Json := optJ (listJ (optJ strsJ)) g
+def colorLayersJ (c : Option (List (String × ColorMap))) : Json :=
+  optJ (fun l => listJ (pairJ Json.str cmapJ) ((l.toArray.qsort (fun a b => a.1 < b.1)).toList)) c
+
+def asCats (j : Json) : R (Option (List (String × String))) := asOpt (asList (asPair asStr asStr)) j
+def asGdef (j : Json) : R (Option (List (Option (List String)))) := asOpt (asList (asOpt (asList asStr))) j
+def asColorLayers (j : Json) : R (Option (List (String × ColorMap))) := asOpt (asList (asPair asStr asCMap)) j
+
+/-- one invocation of DottedCircleFilter: (model reply, holds on the observation, parts of holds) -/
+def dcOne (separate : Bool) (sp : Json) (o : ObsCall) (osp : Option Json) : R (Json × Bool × Json) := do
+  let glyphs ← asList asFGlyph (← field sp "glyphs")
+  let src : DCSrc := { glyphs := glyphs, cats := ← asCats (← field sp "cats"), gdef := ← asGdef (← field sp "gdef"),
+                       feaCanonical := ← asBool (← field sp "feaCanonical") }
+  let i : DCIn := { src := src, gs := ← asGlyphSet (← field sp "gs"), shared := ← asBool (← field sp "shared"),
+                    drawn := ← asGlyph (← field sp "drawn") }
+  let mj := match dcCall i with
+    | .error e => Json.mkObj [("err", Json.str (errS e))]
+    | .ok r => Json.mkObj [("err", Json.null), ("modified", strsJ (sortStr r.modified)), ("gs", glyphSetJ r.gs),
+        ("font", listJ (pairJ Json.str glyphJ) (r.src.glyphs.map (fun fg => (fg.name, fg.g)))),
+        ("cats", catsJ r.src.cats), ("gdef", gdefJ r.src.gdef),
+        ("feaChanged", Json.bool (r.src.feaAssigned && (r.src.gdef != src.gdef || !src.feaCanonical))),
+        ("ties", listJ Json.bool r.ties)]
+  match o.err, osp with
+  | none, some os =>
+    let gs' ← asGlyphSet (← field os "gs")
+    let font' ← asList (asPair asStr asGlyph) (← field os "font")
+    let cats' ← asCats (← field os "cats")
+    let fc ← asBool (← field os "feaChanged")
+    let fp := holdsDCFootprint glyphs i.gs gs'
+    let rp := holdsReport i.gs gs' o.modified
+    let sr := holdsDCSource separate (glyphs.map (fun fg => (fg.name, fg.g))) font' src.cats cats' fc
+    return (mj, holdsDC separate glyphs i.gs o.modified gs' font' src.cats cats' fc,
+            Json.mkObj [("footprint", Json.bool fp), ("report", Json.bool rp), ("source", Json.bool sr)])
+  | _, _ => return (mj, true, Json.null)
+
+def asExSrc (sp : Json) : R ExSrc := do
+  return { layers := ← asList (asPair asStr asXSet) (← field sp "layers"),
+           globalMap := ← asOpt asCMap (← field sp "globalMap"),
+           colorLayers := ← asColorLayers (← field sp "colorLayers") }
+
+def sortCL (s : ExSrc) : ExSrc :=
+  { s with colorLayers := s.colorLayers.map (fun l => (l.toArray.qsort (fun a b => a.1 < b.1)).toList) }
+
+def exOne (separate : Bool) (incl : Include) (sp : Json) (o : ObsCall) (osp : Option Json) : R (Json × Bool × Json) := do
+  let src ← asExSrc sp
+  let i : ExIn := { src := src, gs := ← asXSet (← field sp "gs") }
+  let mj := match exCall incl i with
+    | .error e => Json.mkObj [("err", Json.str (errS e))]
+    | .ok r => Json.mkObj [("err", Json.null), ("modified", strsJ (sortStr r.modified)), ("gs", xsetJ r.gs),
+        ("layers", listJ (pairJ Json.str xsetJ) r.src.layers), ("colorLayers", colorLayersJ r.src.colorLayers),
+        ("added", strsJ r.added)]
+  match o.err, osp with
+  | none, some os =>
+    let gs' ← asXSet (← field os "gs")
+    let src' : ExSrc := { layers := ← asList (asPair asStr asXSet) (← field os "layers"), globalMap := src.globalMap,
+                          colorLayers := ← asColorLayers (← field os "colorLayers") }
+    let fp := holdsExFootprint src.layers i.gs gs'
+    let rp := holdsExReport i.gs gs' o.modified
+    let sr := holdsExSource separate (sortCL src) (sortCL src')
+    return (mj, holdsEx separate (sortCL src) i.gs o.modified gs' (sortCL src'),
+            Json.mkObj [("footprint", Json.bool fp), ("report", Json.bool rp), ("source", Json.bool sr)])
+  | _, _ => return (mj, true, Json.null)
+
+/-- op "special": one DottedCircleFilter / ExplodeColorLayerGlyphsFilter object applied to 1-2 fonts in a row -/
+def special (req : Json) : R Reply := do
+  let i ← field req "in"
+  let impl ← asStr (← field i "impl")
+  let incl ← asInclude (← field i "realInc")
+  let separate ← asBool (← field i "separate")
+  let fonts ← asArr (← field i "fonts")
+  let obs ← field req "obs"
+  let ocallsJ ← asArr (← field obs "calls")
+  let ocalls ← ocallsJ.mapM asObsCall
+  let ofresh ← asList asObsCall (← field obs "fresh")
+  let mut outs : Array Json := #[]
+  let mut parts : Array Json := #[]
+  let mut ok := ocalls.length == fonts.length
+  for ((f, o), oj) in List.zip (List.zip fonts ocalls) ocallsJ do
+    let sp ← field f "sp"
+    let osp := (oj.getObjVal? "sp").toOption
+    let (mj, h, info) ← if impl == "dottedCircle" then dcOne separate sp o osp else exOne separate incl sp o osp
+    outs := outs.push mj
+    parts := parts.push info
+    ok := ok && h
+  let hstate := holdsStateless (ocalls.map ObsCall.outcome) (ofresh.map ObsCall.outcome)
+  return { model := Json.mkObj [("calls", Json.arr outs)], holds := ok && hstate,
+           info := Json.mkObj [("calls", Json.arr parts), ("stateless", Json.bool hstate)] }
+
 def handle (op : String) (req : Json) : R Reply :=
   match op with
   | "seq" => seq req
   | "init" => init req
   | "iseq" => iseq req
   | "prun" => prun req
+  | "special" => special req
   | _ => throw s!"C14: unknown op {op}"
 
 end Ufo2ft.Drv.C14
